@@ -193,6 +193,7 @@ PROPERTIES = {
         "assumptions": COMMON_ASSUMPTIONS + ["query responses are not compared byte-wise (a proto map field has no defined wire order)"],
         "tests": [
             {"test": "TestC19InProcess", "quick": 250, "thorough": 80000},
+            {"test": "TestC19FreshInstance", "quick": 40, "thorough": 6400},
             {"test": "TestC19CrossProcess", "quick": 150, "thorough": 24000, "replicas": 2, "shards": 8},
         ],
     },
